@@ -48,8 +48,9 @@ struct DWorld : World {
 			op.a = r.below(12);                 // id selector (8 ids, 4 hashed names)
 			// handler behaviour of a record created by this op: b = return selector | set_id selector << 8 | reenter << 16 | reenter id << 20
 			op.b = r.below(8) | (r.below(4) << 8) | ((r.chance(1, 5) ? 1 + r.below(2) : 0) << 16) | (r.below(12) << 20);
-			op.c = r.below(9);                  // reserve width
+			op.c = r.below(9) + 9 * r.below(1 << 20);     // reserve width (c % 9) and variant bits of the other ops
 			if (op.kind == OP_RESERVE && r.chance(1, 40)) op.b |= 0x3000;      // burst through the whole one-byte id space
+			else if (op.kind == OP_RESERVE && r.chance(1, 8)) op.b |= 0x5000;  // reservation on the dispatcher's own table
 			if (allocf && r.chance(1, 4)) { op.fault = FL_ALLOC; op.fa = r.range(1, 2); }
 			p.ops.push_back(op);
 		}
@@ -330,6 +331,25 @@ struct DWorld : World {
 					log.ev("RESERVE burst: %d reserved, %d released, %d reserved again, %zu outstanding", got, released, again, reserved.size());
 					outcome = 2; break;
 				}
+				if ((op.b & 0xf000) == 0x5000 && width && !failn) {
+					// a reservation on the dispatcher's own table (a C++ dispatch is its own command::array): the new id must be free among
+					// everything registered there, whatever ids the handlers have - also the largest one
+					if ((op.c & 8) && !live.count(UINTPTR_MAX)) {
+						Rec *r = new_rec(UINTPTR_MAX, 0, false); int rc; { Sut s; rc = mpt_dispatch_set(D, UINTPTR_MAX, handler, r); }
+						if (rc >= 0) { r->registered = true; live[UINTPTR_MAX] = r; st.hit("probe:handler_with_largest_id"); }
+					}
+					command *c; { Sut s; c = mpt_command_reserve(reinterpret_cast<unique_array<command> *>(D), width); }
+					log.ev("RESERVE on the dispatcher table, width %zu -> %s id %lx", width, c ? "ok" : "null", c ? (unsigned long) c->id : 0ul);
+					if (!c) { outcome = 0; break; }
+					if (live.count(c->id)) fail("duplicate-reply-id", "reply id %lx reserved on the dispatcher table although a registration with that id is live", (unsigned long) c->id);
+					static const uint64_t maxd[] = {0, 0x7f, 0x7fff, 0x7fffff, 0x7fffffff, 0x7fffffffffull, 0x7fffffffffffull, 0x7fffffffffffffull, 0x7fffffffffffffffull};
+					if (!c->id || (uint64_t) c->id > maxd[width]) fail("reply-id-range", "reply id %lx reserved on the dispatcher table does not fit %zu header bytes", (unsigned long) c->id, width);
+					Rec *r = new_rec(c->id, 0, false); r->registered = true;
+					c->cmd = (int (*)(void *, void *)) handler; c->arg = r;
+					live[c->id] = r;
+					st.hit("probe:reservation_on_dispatcher_table");
+					outcome = 3; break;
+				}
 				command *c; { Sut s(failn); c = mpt_command_reserve(&waitarr, width); fired = g.fired; }
 				log.ev("RESERVE width %zu%s -> %s id %lx", width, fired ? " allocfail" : "", c ? "ok" : "null", c ? (unsigned long) c->id : 0ul);
 				if (!c) { if (width && !fired && reserved.size() < 100) fail("refused-valid", "reservation of a reply id (width %zu) refused with %zu outstanding", width, reserved.size()); break; }
@@ -347,6 +367,20 @@ struct DWorld : World {
 				auto it = reserved.begin(); std::advance(it, (size_t) op.a % reserved.size());
 				command *c; { Sut s; c = mpt_command_get(&waitarr, *it); }
 				if (!c) fail("lost-registration", "outstanding reply id %lx does not resolve", (unsigned long) *it);
+				if (c->cmd && (op.c & 2)) {
+					// the reply arrives first: the handler the reservation installed (the library's own, which logs the reply) gets the message,
+					// the way a connection hands it over - an answer with an error, info or success code, an output message, anything else, nothing
+					unsigned v = (unsigned) (op.c >> 2) % 6;
+					uint8_t body[6] = {0, 0, 'n', 'o', 0, 0}; size_t bl = 4;
+					if (v == 0) { body[0] = 0x00 /* Answer */; body[1] = (uint8_t) -1; } else if (v == 1) { body[0] = 0x00; body[1] = 3; } else if (v == 2) { body[0] = 0x00; body[1] = 0; bl = 1; }
+					else if (v == 3) { body[0] = 0x01 /* Output */; body[1] = 2; } else if (v == 4) { body[0] = 0x7f; body[1] = 9; } else bl = 0;
+					body[0] = v < 3 ? (uint8_t) msgtype::Answer : v == 3 ? (uint8_t) msgtype::Output : body[0];
+					Block bb(bl + 1, 0); memcpy(bb.p, body, bl);
+					message rm; rm.base = bb.p; rm.used = bl; rm.cont = 0; rm.clen = 0;
+					int rr; { Sut s; SUT_GUARD_ABORT(rr = c->cmd(c->arg, v == 5 && (op.c & 64) ? 0 : (void *) &rm)); }
+					log.ev("REPLY arrives for reserved id %lx (kind %u) -> %d", (unsigned long) *it, v, rr);
+					st.hit("probe:reply_to_reserved_id_logged");
+				}
 				c->cmd = 0; // what the owner of a reservation does after the reply was handled (stream_input)
 				log.ev("UNRESERVE id %lx", (unsigned long) *it);
 				reserved.erase(it); outcome = 1;
